@@ -1,0 +1,353 @@
+// Copyright 2025 Anapaya Systems
+//
+// Licensed under the Apache License, Version 2.0 (the "License");
+// you may not use this file except in compliance with the License.
+// You may obtain a copy of the License at
+//
+//   http://www.apache.org/licenses/LICENSE-2.0
+//
+// Unless required by applicable law or agreed to in writing, software
+// distributed under the License is distributed on an "AS IS" BASIS,
+// WITHOUT WARRANTIES OR CONDITIONS OF ANY KIND, either express or implied.
+// See the License for the specific language governing permissions and
+// limitations under the License.
+
+//! Verification hook, compiled only with `--cfg anapaya_scion_sdk_verif`.
+//!
+//! Exposes the per-pair path set ([`PathSet`]) of the [`MultiPathManager`] as a sequential object
+//! with an injected clock, so that an external harness can drive exactly the steps the worker
+//! task would take (`maintain`, issue ingestion) and observe the state between them. Nothing in
+//! here adds behaviour: every method forwards to the function the worker/loop or the public API
+//! uses. The file is add-only and unreachable in a normal build.
+
+use std::{
+    sync::Arc,
+    time::{Duration, SystemTime},
+};
+
+use sciparse::{
+    identifier::isd_asn::IsdAsn,
+    path::{ScionPath, fingerprint::data_plane::DpPathFingerprint},
+    payload::scmp::model::ScmpErrorMessage,
+};
+use scion_sdk_utils::backoff::BackoffConfig;
+use tokio::sync::broadcast;
+
+use super::{
+    MultiPathManager, MultiPathManagerConfig, MultiPathManagerConfigError,
+    issues::{IssueKind, SendError},
+    pathset::{PathSet, PathSetHandle, PathSetTask},
+    reliability::ReliabilityScore,
+};
+use crate::{
+    path::{
+        PathStrategy,
+        fetcher::traits::{PathFetchError, PathFetcher},
+        policy::PathPolicy,
+        types::PathManagerPath,
+    },
+    stack::ScionSocketSendError,
+};
+
+/// All fields of [`MultiPathManagerConfig`] (several have no public setter).
+#[derive(Debug, Clone, Copy)]
+#[allow(missing_docs)]
+pub struct VerifConfig {
+    pub max_cached_paths_per_pair: usize,
+    pub refetch_interval: Duration,
+    pub min_refetch_delay: Duration,
+    pub min_expiry_threshold: Duration,
+    pub max_idle_period: Duration,
+    pub fetch_failure_backoff: BackoffConfig,
+    pub issue_cache_size: usize,
+    pub issue_broadcast_size: usize,
+    pub issue_deduplication_window: Duration,
+    pub path_swap_score_threshold: f32,
+}
+
+impl VerifConfig {
+    /// The stack's default configuration.
+    pub fn stack_default() -> Self {
+        let c = MultiPathManagerConfig::default();
+        VerifConfig {
+            max_cached_paths_per_pair: c.max_cached_paths_per_pair,
+            refetch_interval: c.refetch_interval,
+            min_refetch_delay: c.min_refetch_delay,
+            min_expiry_threshold: c.min_expiry_threshold,
+            max_idle_period: c.max_idle_period,
+            fetch_failure_backoff: c.fetch_failure_backoff,
+            issue_cache_size: c.issue_cache_size,
+            issue_broadcast_size: c.issue_broadcast_size,
+            issue_deduplication_window: c.issue_deduplication_window,
+            path_swap_score_threshold: c.path_swap_score_threshold,
+        }
+    }
+
+    /// Converts into the real configuration type (not validated here;
+    /// [`MultiPathManager::new`] validates).
+    pub fn into_config(self) -> MultiPathManagerConfig {
+        MultiPathManagerConfig {
+            max_cached_paths_per_pair: self.max_cached_paths_per_pair,
+            refetch_interval: self.refetch_interval,
+            min_refetch_delay: self.min_refetch_delay,
+            min_expiry_threshold: self.min_expiry_threshold,
+            max_idle_period: self.max_idle_period,
+            fetch_failure_backoff: self.fetch_failure_backoff,
+            issue_cache_size: self.issue_cache_size,
+            issue_broadcast_size: self.issue_broadcast_size,
+            issue_deduplication_window: self.issue_deduplication_window,
+            path_swap_score_threshold: self.path_swap_score_threshold,
+        }
+    }
+}
+
+/// A [`PathStrategy`] with the given policies and, as the stack builder does, the default
+/// scorers.
+pub fn verif_strategy(policies: Vec<Arc<dyn PathPolicy>>, default_scorers: bool) -> PathStrategy {
+    let mut strategy = PathStrategy::default();
+    strategy.policies = policies;
+    if default_scorers {
+        strategy.scoring.use_default_scorers();
+    }
+    strategy
+}
+
+/// One cached path as seen by the manager.
+#[derive(Debug, Clone)]
+pub struct VerifCacheEntry {
+    /// Data-plane fingerprint.
+    pub fingerprint: DpPathFingerprint,
+    /// Expiration (unix seconds).
+    pub expiration: Option<u32>,
+    /// Aggregated score at the snapshot instant.
+    pub score: f32,
+    /// Reliability score at the snapshot instant.
+    pub reliability: f32,
+}
+
+/// Projection of the state of one path set and of the manager's issue cache.
+#[derive(Debug, Clone)]
+#[allow(missing_docs)]
+pub struct VerifSnapshot {
+    /// Cached paths in cache (= rank) order.
+    pub cache: Vec<VerifCacheEntry>,
+    /// Active slot: fingerprint and expiration of the stored copy.
+    pub active: Option<(DpPathFingerprint, Option<u32>)>,
+    pub next_refetch: SystemTime,
+    pub next_idle_check: SystemTime,
+    pub failed_attempts: u32,
+    pub used_in_idle_period: bool,
+    pub initialized: bool,
+    pub ongoing: bool,
+    pub has_error: bool,
+    /// Entries in the issue cache map.
+    pub issue_cache_len: usize,
+    /// Entries in the issue FIFO.
+    pub issue_fifo_len: usize,
+    /// Notifications waiting in this set's broadcast receiver.
+    pub issue_pending: usize,
+}
+
+/// Result of one turn of the worker loop's "issue notification" arm.
+#[derive(Debug, Clone, Copy, PartialEq, Eq)]
+pub enum VerifIngest {
+    /// Nothing was pending (the arm would not have fired).
+    Empty,
+    /// The receiver lagged; `n` notifications were lost.
+    Lagged(u64),
+    /// A notification was received and handled (including the drain of further ones).
+    Handled,
+    /// The worker would stop for this reason.
+    Stop(&'static str),
+}
+
+/// A path set for one (src, dst) pair, registered in a real [`MultiPathManager`], with every
+/// worker step driven from outside.
+pub struct VerifPathSet<F: PathFetcher> {
+    mgr: MultiPathManager<F>,
+    set: PathSet<F>,
+    src: IsdAsn,
+    dst: IsdAsn,
+}
+
+impl<F: PathFetcher> VerifPathSet<F> {
+    /// Creates the manager (validating `config`) and a path set whose clock starts at `now`.
+    ///
+    /// Must be called inside a tokio runtime: a placeholder task handle is registered in the
+    /// manager's map, so that the real hand-out functions find this set instead of spawning a
+    /// worker.
+    pub fn new(
+        src: IsdAsn,
+        dst: IsdAsn,
+        now: SystemTime,
+        config: MultiPathManagerConfig,
+        fetcher: F,
+        strategy: PathStrategy,
+    ) -> Result<Self, MultiPathManagerConfigError> {
+        let mgr = MultiPathManager::new(config, fetcher, strategy)?;
+        let issue_rx = mgr
+            .0
+            .issue_manager
+            .lock()
+            .expect("lock poisoned")
+            .issues_subscriber();
+        let set = PathSet::new_with_time(src, dst, mgr.weak_ref(), config, issue_rx, now);
+        let handle = PathSetHandle {
+            shared: set.shared.clone(),
+        };
+        let task = PathSetTask {
+            task: tokio::spawn(async {}),
+            cancel_token: tokio_util::sync::CancellationToken::new(),
+        };
+        match mgr.0.managed_paths.entry_sync((src, dst)) {
+            scc::hash_index::Entry::Occupied(_) => unreachable!("fresh manager"),
+            scc::hash_index::Entry::Vacant(vacant) => {
+                vacant.insert_entry((handle, task));
+            }
+        }
+        Ok(VerifPathSet { mgr, set, src, dst })
+    }
+
+    /// The manager this set is registered in (for the `PathManager`/`SyncPathManager` traits).
+    pub fn manager(&self) -> &MultiPathManager<F> {
+        &self.mgr
+    }
+
+    /// `PathSet::next_maintain`: how long the worker would sleep from `now`.
+    pub fn next_maintain(&self, now: SystemTime) -> Duration {
+        self.set.next_maintain(now)
+    }
+
+    /// `PathSet::maintain` at `now` (the worker loop's tick arm). `Some(reason)`: the worker would
+    /// exit.
+    pub async fn maintain(&mut self, now: SystemTime) -> Option<&'static str> {
+        self.set.maintain(now, &self.mgr).await
+    }
+
+    /// Number of notifications waiting in the set's broadcast receiver.
+    pub fn issue_pending(&self) -> usize {
+        self.set.internal.issue_rx.len()
+    }
+
+    /// The worker loop's issue arm: receive one notification and pass it to
+    /// `PathSet::handle_issue_rx`.
+    pub fn ingest_next_issue(&mut self, now: SystemTime) -> VerifIngest {
+        let recv = match self.set.internal.issue_rx.try_recv() {
+            Ok(v) => Ok(v),
+            Err(broadcast::error::TryRecvError::Empty) => return VerifIngest::Empty,
+            Err(broadcast::error::TryRecvError::Lagged(n)) => {
+                Err(broadcast::error::RecvError::Lagged(n))
+            }
+            Err(broadcast::error::TryRecvError::Closed) => Err(broadcast::error::RecvError::Closed),
+        };
+        let lagged = match &recv {
+            Err(broadcast::error::RecvError::Lagged(n)) => Some(*n),
+            _ => None,
+        };
+        match self.set.handle_issue_rx(now, recv, &self.mgr) {
+            Some(reason) => VerifIngest::Stop(reason),
+            None => {
+                match lagged {
+                    Some(n) => VerifIngest::Lagged(n),
+                    None => VerifIngest::Handled,
+                }
+            }
+        }
+    }
+
+    /// `ScmpErrorReceiver::report_scmp_error` with an injected timestamp.
+    pub fn report_scmp_error(&self, now: SystemTime, scmp_error: ScmpErrorMessage) {
+        self.mgr
+            .report_path_issue(now, IssueKind::Scmp { error: scmp_error });
+    }
+
+    /// `SendErrorReceiver::report_send_error` with an injected timestamp.
+    pub fn report_send_error(&self, now: SystemTime, error: &ScionSocketSendError) {
+        if let Some(send_error) = SendError::from_socket_send_error(error) {
+            self.mgr
+                .report_path_issue(now, IssueKind::Socket { err: send_error });
+        }
+    }
+
+    /// `MultiPathManager::cached_path` for this pair.
+    pub fn cached_path(&self, now: SystemTime) -> Option<ScionPath> {
+        self.mgr.cached_path(self.src, self.dst, now)
+    }
+
+    /// `MultiPathManager::path` for this pair.
+    pub async fn path(&self, now: SystemTime) -> Result<ScionPath, Arc<PathFetchError>> {
+        self.mgr.path(self.src, self.dst, now).await
+    }
+
+    /// Score a freshly fetched path would get at `now` (cached issues applied), exactly as
+    /// `update_path_cache` computes it for new candidates.
+    pub fn probe_candidate_score(&self, path: &ScionPath, now: SystemTime) -> f32 {
+        let mut entry = PathManagerPath {
+            path: path.clone(),
+            reliability: ReliabilityScore::new_with_time(now),
+        };
+        self.mgr
+            .0
+            .issue_manager
+            .lock()
+            .expect("lock poisoned")
+            .apply_cached_issues(&mut entry, now);
+        self.mgr.0.path_strategy.scoring.score(&entry, now)
+    }
+
+    /// Projection of the current state; scores are evaluated at `now`.
+    pub fn snapshot(&self, now: SystemTime) -> VerifSnapshot {
+        let scoring = &self.mgr.0.path_strategy.scoring;
+        let cache = self
+            .set
+            .internal
+            .cached_paths
+            .iter()
+            .map(|e| {
+                VerifCacheEntry {
+                    fingerprint: e.path.fingerprint(),
+                    expiration: e.path.expiration(),
+                    score: scoring.score(e, now),
+                    reliability: e.reliability.score(now).value(),
+                }
+            })
+            .collect();
+        let active = self
+            .set
+            .shared
+            .active_path
+            .load()
+            .as_ref()
+            .map(|p| (p.1, p.0.expiration()));
+        let (initialized, ongoing, has_error) = {
+            let sync = self.set.shared.sync.lock().expect("lock poisoned");
+            (
+                sync.initialized,
+                sync.ongoing_start.is_some(),
+                sync.current_error.is_some(),
+            )
+        };
+        let (issue_cache_len, issue_fifo_len) = {
+            let im = self.mgr.0.issue_manager.lock().expect("lock poisoned");
+            (im.cache.len(), im.fifo_issues.len())
+        };
+        VerifSnapshot {
+            cache,
+            active,
+            next_refetch: self.set.internal.next_refetch,
+            next_idle_check: self.set.internal.next_idle_check,
+            failed_attempts: self.set.internal.failed_attempts,
+            used_in_idle_period: self
+                .set
+                .shared
+                .was_used_in_idle_period
+                .load(std::sync::atomic::Ordering::Relaxed),
+            initialized,
+            ongoing,
+            has_error,
+            issue_cache_len,
+            issue_fifo_len,
+            issue_pending: self.set.internal.issue_rx.len(),
+        }
+    }
+}
